@@ -6,8 +6,14 @@ package c07
 import (
 	"bytes"
 	"fmt"
+	"net/http"
+	"net/http/httptest"
+	"os"
 	"sort"
+	"strconv"
 	"strings"
+	"sync"
+	"time"
 
 	"github.com/hashicorp/raft"
 	"github.com/influxdata/influxdb/services/meta"
@@ -46,6 +52,23 @@ func (Prop) Generate(r *fw.Rand, tier string) []fw.Case {
 				cases = append(cases, fw.Case{Ops: []string{"reset 1", "createdatanode h1 t1", fmt.Sprintf("raw %d %d bad", t, e), "dump"}, Tags: []string{"raw"}})
 			}
 		}
+	}
+	// 1b. the index of a client's metadata cache under answers from lagging meta servers
+	for i := 0; i < 6; i++ {
+		var xs []string
+		cur := 1 + r.Intn(5)
+		for k := 0; k < 3+r.Intn(5); k++ {
+			switch r.Intn(4) {
+			case 0:
+				xs = append(xs, fmt.Sprint(cur-1-r.Intn(cur))) // a server that is behind
+			case 1:
+				xs = append(xs, fmt.Sprint(cur)) // nothing new
+			default:
+				cur += 1 + r.Intn(4)
+				xs = append(xs, fmt.Sprint(cur))
+			}
+		}
+		cases = append(cases, fw.Case{Ops: []string{"cpoll " + strings.Join(xs, ",")}, Tags: []string{"client"}})
 	}
 	// 2. logs with snapshot ops
 	n := 120
@@ -155,6 +178,8 @@ func (s *state) step(op string) (out string) {
 			return "release CHANGED"
 		}
 		return "release same"
+	case "cpoll":
+		return clientPoll(f[1])
 	case "raw":
 		var t, e int
 		fmt.Sscan(f[1], &t)
@@ -176,6 +201,78 @@ func (s *state) step(op string) (out string) {
 		return "applied"
 	}
 	return s.m.Step(op)
+}
+
+// clientPoll: a real meta.Client polls a scripted meta server that answers the k-th request
+// with a metadata value of index idx[k] — what a client sees that is handed from one meta node
+// to another that lags behind, or polls a follower still replaying its log. Every request
+// carries the index the client holds at that moment; the op returns those indices (after the
+// first answer): the index of a data node's metadata cache must never go back.
+func clientPoll(csv string) (res string) {
+	defer func() {
+		if r := recover(); r != nil {
+			res = "panic:" + strings.ReplaceAll(fmt.Sprint(r), " ", "_")
+		}
+	}()
+	var idx []uint64
+	for _, x := range strings.Split(csv, ",") {
+		v, err := strconv.ParseUint(x, 10, 64)
+		if err != nil {
+			return "bad-op"
+		}
+		idx = append(idx, v)
+	}
+	var mu sync.Mutex
+	var seen []string
+	k := 0
+	done := make(chan struct{})
+	stop := make(chan struct{})
+	srv := httptest.NewServer(http.HandlerFunc(func(w http.ResponseWriter, r *http.Request) {
+		mu.Lock()
+		if k > 0 {
+			seen = append(seen, r.URL.Query().Get("index"))
+		}
+		if k >= len(idx) {
+			if k == len(idx) {
+				close(done)
+			}
+			k++
+			mu.Unlock()
+			<-stop // nothing more to say: hold the request like a server without news
+			return
+		}
+		// the metadata names this server as the (only) meta node: the client takes its list of
+		// meta servers from what it installs
+		d := &meta.Data{Index: idx[k], MetaNodes: []meta.NodeInfo{{ID: 1, Addr: r.Host, TCPAddr: r.Host}}}
+		k++
+		mu.Unlock()
+		b, err := d.MarshalBinary()
+		if err != nil {
+			w.WriteHeader(500)
+			return
+		}
+		w.Write(b)
+	}))
+	defer srv.Close()
+	defer close(stop)
+	dir, _ := os.MkdirTemp("", "c07-client-")
+	defer os.RemoveAll(dir)
+	cfg := meta.NewConfig()
+	cfg.Dir = dir
+	c := meta.NewClient(cfg)
+	c.SetMetaServers([]string{strings.TrimPrefix(srv.URL, "http://")})
+	if err := c.Open(); err != nil {
+		return "err:open"
+	}
+	defer c.Close()
+	select {
+	case <-done:
+	case <-time.After(20 * time.Second):
+		return "hang"
+	}
+	mu.Lock()
+	defer mu.Unlock()
+	return "ok " + strings.Join(seen, ",")
 }
 
 // badPayload rewrites a marshalled Command {Type; one extension field} so that the
@@ -242,6 +339,20 @@ func (Prop) Oracle(c fw.Case, out []string) fw.Verdict {
 			break
 		}
 		o := out[i]
+		if strings.HasPrefix(op, "cpoll ") {
+			if !strings.HasPrefix(o, "ok ") {
+				return fw.Verdict{OK: false, Why: op + " => " + o, Signature: "client poll " + strings.Fields(o + " ?")[0]}
+			}
+			prev := uint64(0)
+			for _, x := range strings.Split(strings.TrimPrefix(o, "ok "), ",") {
+				v, _ := strconv.ParseUint(x, 10, 64)
+				if v < prev {
+					return fw.Verdict{OK: false, Why: fmt.Sprintf("%s: the client's metadata went back from index %d to %d (indices held: %s)", op, prev, v, o), Signature: "a data node's metadata cache goes back to an older index"}
+				}
+				prev = v
+			}
+			continue
+		}
 		switch {
 		case o == "snap LOSSY" || strings.HasPrefix(o, "snap restore-err") || o == "snap err":
 			// which value was lost: find the last state-changing op before
